@@ -971,8 +971,8 @@ impl Runtime {
             .collect();
         functions.sort();
         format!(
-            "listing={:?}|dirty={}|program={}|pc={}|tr={:?}|tron={}|entry={}|stack={:?}|vars={}|state={:?}|cont={:?}|cont_pc={}|col={}|fns={:?}",
-            self.listing,
+            "listing={}|dirty={}|program={}|pc={}|tr={:?}|tron={}|entry={}|stack={:?}|vars={}|state={:?}|cont={:?}|cont_pc={}|col={}|fns={:?}",
+            self.listing.verif_dump(),
             self.dirty,
             self.program.verif_dump(),
             self.pc,
